@@ -274,6 +274,18 @@ func staleDefaultTime(x *mon.Ctx) {
 	forged := append([]byte(nil), raw...)
 	forged[100] ^= 1
 	errForged := verify.RawTdxQuote(forged, sharedAfterFailure)
+	// ... and values whose first use fails while the collateral is being obtained (endpoint down); the caller then turns
+	// collateral checking off on the same value
+	afterDownload := map[string]*verify.Options{}
+	for name, g := range map[string]*world.Getter{"every-endpoint-down": {R: map[string]world.Resp{}}, "tcb-info-garbage": {R: map[string]world.Resp{world.TcbInfoURL(hex.EncodeToString(p.FMSPC[:])): {B: []byte("{")}}}} {
+		o := mk()
+		o.GetCollateral, o.Getter = true, g
+		if verify.RawTdxQuote(raw, o) == nil {
+			x.Broken("stale-default-time: verification with collateral succeeded although " + name)
+		}
+		o.GetCollateral = false
+		afterDownload[name] = o
+	}
 	t1 := time.Now()
 	err1 := verify.RawTdxQuote(raw, shared)
 	if !t1.Before(exp.Add(-500 * time.Millisecond)) {
@@ -300,6 +312,13 @@ func staleDefaultTime(x *mon.Ctx) {
 		x.Broken("stale-default-time: the forged quote was accepted")
 	} else if (errAfterFailure == nil) != (errFresh == nil) {
 		x.Violation("stale-default-time", "after-failed-call", fmt.Sprintf("Options.Now left nil: an options value whose first use was a FAILED verification still accepts the chain after it expired (err=%v) while a fresh value rejects (%v)", errAfterFailure, errFresh), "none", wit)
+	}
+	for name, o := range afterDownload {
+		err := verify.RawTdxQuote(raw, o)
+		if (err == nil) != (errFresh == nil) {
+			x.Violation("stale-default-time", "after-failed-collateral-download/"+name, fmt.Sprintf("Options.Now left nil: an options value whose first use FAILED while obtaining collateral (%s) still accepts the chain after it expired (err=%v) while a fresh value rejects (%v)", name, err, errFresh), "none", wit)
+		}
+		x.Note("stale-default-time", "after-failed-collateral-download/"+name, err == nil, false, true)
 	}
 	x.Note("stale-default-time", "after-failed-call", errAfterFailure == nil, false, true)
 	x.Note("stale-default-time", "", errShared == nil, false, true)
